@@ -120,6 +120,17 @@ class Ownership:
                                     if st.op == "store" and root(fn, st.ops[1]) == rr:
                                         work.append(st.ops[0])
                         elif d.op == "call" and self.is_alloc_call(d):
+                            # the object was also put into a field of some other object (`r->curr = h; return h;`): the field owns it, what is
+                            # returned is a borrowed alias - exactly as if the function had returned a load of that field
+                            kept = False
+                            for st in fn.insts():
+                                if st.op == "store" and fn.defn(st.ops[0]) is not None and d.id in zero_alias_closure(fn, d.id) and \
+                                        getattr(fn.defn(st.ops[0]), "id", None) in zero_alias_closure(fn, d.id):
+                                    rr = root(fn, st.ops[1])
+                                    if rr[0] in ("param", "load") and rr[2] is not None:
+                                        kept = True
+                            if kept:
+                                continue
                             if fn.name not in self._returns_owned:
                                 self._returns_owned.add(fn.name)
                                 changed = True
